@@ -397,7 +397,8 @@ wrapint wrapint::ashr(wrapint x) const {
     uint64_t all_ones =
         (_width < 64 ? ((uint64_t)1 << (uint64_t)_width) - 1 : UINT64_MAX);
     // 1110..0
-    uint64_t only_upper_bits_ones = all_ones << (uint64_t)(_width - x._n);
+    uint64_t only_upper_bits_ones =
+        (all_ones << (uint64_t)(_width - x._n)) & all_ones;
     return wrapint(only_upper_bits_ones | (_n >> x._n), _width, _mod);
   }
 }
